@@ -187,7 +187,12 @@ func segmentFMP4ReadDurationFromParts(
 	r io.ReadSeeker,
 	init *fmp4.Init,
 ) (time.Duration, error) {
-	_, err := r.Seek(0, io.SeekStart)
+	fileSize, err := r.Seek(0, io.SeekEnd)
+	if err != nil {
+		return 0, err
+	}
+
+	_, err = r.Seek(0, io.SeekStart)
 	if err != nil {
 		return 0, err
 	}
@@ -267,8 +272,15 @@ func segmentFMP4ReadDurationFromParts(
 
 		mdatSize := uint32(buf[0])<<24 | uint32(buf[1])<<16 | uint32(buf[2])<<8 | uint32(buf[3])
 
-		_, err = r.Seek(int64(mdatSize)-8, io.SeekCurrent)
+		var mdatEnd int64
+		mdatEnd, err = r.Seek(int64(mdatSize)-8, io.SeekCurrent)
 		if err != nil {
+			break
+		}
+
+		// seeking past the end of the file is not an error:
+		// skip a mdat that has been written partially
+		if mdatEnd > fileSize {
 			break
 		}
 
